@@ -32,6 +32,7 @@ def build():
         frag.setdefault("engine", "lean4-proof+correspondence")
         checks.append(frag)
     hooks = json.load(open(HOOKS_FILE))
+    hooks["source_commits"] = [h for h, s in repo_log() if s.startswith("verif-hook:")]
     na_reasons = json.load(open(NA_FILE)) if os.path.exists(NA_FILE) else {}
     have = {c["property_id"] for c in checks}
     na = [{"property_id": i, "reason": na_reasons.get(i, "not yet claimed: its model, theorems and code tie are not built at this commit (planned, see DESIGN.md section 5)")}
@@ -55,15 +56,32 @@ def build():
     }
 
 
+def repo_log():
+    try:
+        out = subprocess.run(["git", "-C", "/repo", "log", "--format=%H %s"], capture_output=True, text=True).stdout
+    except OSError:
+        return []
+    return [l.split(" ", 1) for l in out.splitlines() if " " in l]
+
+
 def write_findings():
     from lib import core
+    log = repo_log()
+    findings = core.all_findings()
+    for f in findings:
+        if f.get("status") == "fixed":
+            subj = f.get("commit", "")
+            subjs = subj if isinstance(subj, list) else [subj]
+            hs = [h for h, s in log if any(s.strip() == x.strip() for x in subjs)]
+            if hs:
+                f["commit_hash"] = hs if len(hs) > 1 else hs[0]
     doc = ("Genuine defects of txpipe/pallas found by the checks (generated union of known_findings.d/*.json). "
            "status=known: recorded, not repaired; printed as KNOWN-FINDING on every run and not counted as a violation; "
            "matched by (property, stream, key_regex on the oracle's stable violation key), so a different violation of the "
            "same property is still reported. status=fixed: repaired by a `fix:` commit in /repo; suppresses nothing. "
            "Never modified at run time.")
     with open(os.path.join(ROOT, "known_findings.json"), "w") as f:
-        json.dump({"_doc": doc, "findings": core.all_findings()}, f, indent=1)
+        json.dump({"_doc": doc, "findings": findings}, f, indent=1)
         f.write("\n")
 
 
